@@ -74,6 +74,7 @@ impl<T: Qcow2IoOps> Qcow2Dev<T> {
                             return Err("no continuous room for new l1 table".into());
                         }
                         log::info!("ensure_l2_offset: write new allocated l1 table");
+                        let mut header_tried = false;
                         let written = async {
                             self.flush_refcount().await?;
                             self.flush_mapping(&l1_table).await?;
@@ -85,12 +86,18 @@ impl<T: Qcow2IoOps> Qcow2Dev<T> {
                             // the new table before the header which points to it
                             self.call_fsync(0, usize::MAX, 0).await?;
 
+                            header_tried = true;
                             self.flush_header_for_l1_table(res.0, l1_entries).await
                         }
                         .await;
                         if let Err(err) = written {
-                            // the header still points to the old table
-                            self.free_clusters(res.0, res.1).await?;
+                            // The header still points to the old table,
+                            // unless the header write failed: it may have
+                            // reached the disk, then the new table isn't
+                            // released (and is leaked).
+                            if !header_tried {
+                                self.free_clusters(res.0, res.1).await?;
+                            }
                             return Err(err);
                         }
                     }
